@@ -113,6 +113,22 @@ func C40Bodies(dir string) ([]C40Body, error) {
 			}),
 		)
 	}
+	// every core font, with a text holding codes the font has no glyph for (no-break space, soft hyphen, a control
+	// character): whatever is worked out on first use for such a code is shared by all goroutines
+	var coreFontBodies []C40Body
+	for _, fn := range []string{"Helvetica", "Helvetica-Bold", "Times-Roman", "Times-Italic", "Courier", "Courier-Oblique", "Symbol", "ZapfDingbats"} {
+		fn := fn
+		coreFontBodies = append(coreFontBodies, op("stamp "+fn+" unmapped codes", func(w *bytes.Buffer) error {
+			m, err := api.TextWatermark("a\u00a0b\u00adc\td", "font:"+fn+", points:24, pos:c", true, false, types.POINTS)
+			if err != nil {
+				return err
+			}
+			return api.AddWatermarks(bytes.NewReader(in), w, nil, m, newConf())
+		}), C40Body{Name: "text width " + fn + " unmapped codes", Run: func(int) string {
+			w1, err := font.TextWidth("a\u00a0b\u00adc\td", fn, 12)
+			return fmt.Sprintf("%.3f %v", w1, err)
+		}})
+	}
 	bodies := []C40Body{
 		{Name: "read+validate", Run: func(int) string {
 			conf := newConf()
@@ -169,5 +185,6 @@ func C40Bodies(dir string) ([]C40Body, error) {
 			return fmt.Sprint(c.ValidationMode, c.Eol, c.WriteObjectStream)
 		}},
 	}
+	bodies = append(bodies, coreFontBodies...)
 	return append(bodies, cryptoBodies...), nil
 }
